@@ -29,12 +29,22 @@ Theorem C18_input_requests : forall specs specl typed quit run_empty fuel acts,
   sok chk_C18 typed (rev (trace (snd (app_run_all specs specl typed quit run_empty fuel acts)))) = true.
 Proof. exact input_requests. Qed.
 
-(* "told exactly once": no input handler ever gets a second ready signal - the additional acceptor [chk_once]
-   (proofs/InputLink.v: T_READY [n; _] only for a handler n that has not received one) accepts every session ... *)
+(* "told exactly once": when the application has no InputHandler objects of its own ([no_handler_objects]: no
+   SHandlerAsk anywhere - then every request has a fresh handler, which is all the framework itself ever does through
+   InputManager) no input handler ever gets a second ready signal: the additional acceptor [chk_once]
+   (proofs/InputLink.v: T_READY [n; _] only for a handler n that has not received one) accepts the session ... *)
 Theorem C18_answered_at_most_once : forall specs specl typed quit run_empty fuel acts,
   (forall n, specs n = nth n specl default_spec) -> wf_session specl quit acts = true ->
+  no_handler_objects specl acts = true ->
   sok chk_once typed (rev (trace (snd (app_run_all specs specl typed quit run_empty fuel acts)))) = true.
 Proof. exact answered_once. Qed.
+
+(* for REUSED handler objects "once" is per request, and that is the hand-off clause of chk_C18: an accepted ready
+   signal consumes exactly one entry of the hand-off list, the one it matches (every session: C18_input_requests) *)
+Theorem C18_ready_consumes_its_entry : forall w n ok t, chk_C18 w (EUser T_READY [n; ok] t) = true ->
+  exists x, fst (fst x) = n /\ snd (fst x) = (ok =? 1)%nat /\ streq (snd x) t = true /\
+            Permutation.Permutation (sw_handoff w) (x :: sw_handoff (sworld_step w (EUser T_READY [n; ok] t))).
+Proof. exact ready_consumes_entry. Qed.
 
 (* ... and a trace it accepts contains no two ready signals for the same handler *)
 Theorem C18_no_second_ready : forall typed t1 n a1 x1 t2 a2 x2 t3,
@@ -57,6 +67,14 @@ Proof. exact C18_ready_meaning. Qed.
 Theorem C18_wait_returns_after_answer : forall w scr n t, chk_C18 w (EUser T_GOT [scr; n] t) = true ->
   In n (sw_received w).
 Proof. exact C18_got_meaning. Qed.
+
+(* the application's own handler object h (InputHandler n): after h.wait_on_input() it sees (input_successful(), value)
+   = those of the LAST ready signal delivered to n since n last asked ([sw_last]: T_PROMPT [n; _] pushes (n, None),
+   T_READY [n; ok] text pushes (n, Some (ok, text))) - and there is one *)
+Theorem C18_wait_reports_last_answer : forall w h n ok hv t, chk_C18 w (EUser T_WAITED [h; n; ok; hv] t) = true ->
+  exists b v, alookup n (sw_last w) = Some (Some (b, v)) /\ b = (ok =? 1)%nat /\
+              (b = true -> hv = 1 /\ streq v t = true).
+Proof. exact C18_waited_meaning. Qed.
 
 (* the hand-off itself: the most recent requester gets the line, every earlier one a failure (oldest first); the
    stack of requests is empty and no reader runs afterwards *)
@@ -93,8 +111,37 @@ Example C18_example :
   sok chk_C18 [] [EUser T_ASK [0; 0] []; EUser T_PROMPT [0; 0] []; EUser T_GOT [0; 0] []] = false.
 Proof. vm_compute. repeat split. Qed.
 
+(* the application's own InputHandler objects and a user who types ahead (the reader's InputReceivedSignal is queued
+   before the requesting code goes on):
+   (1) one object asks, waits, asks again, waits again: chk_C18 accepts, each wait reports its own line; the object got
+       two ready signals - one per request - so chk_once rejects: the hypothesis of C18_answered_at_most_once is needed;
+   (2) three objects ask one after the other before anything is processed (prompts [0;0] [1;1] [2;1], ONE reader): the
+       most recent gets "a", the two earlier ones are told they failed and their waits report (False, None); then object
+       0 asks again and is superseded by object 1: its wait reports (False, None), object 1's ("b");
+   and the T_WAITED clause is not vacuous: a stale success flag after a failure, and a wait that returns before any
+   answer, are rejected *)
+Example C18_example_handler_objects :
+  wf_session [ex18_spec true] None ex18h_acts1 = true /\ no_handler_objects [ex18_spec true] ex18h_acts1 = false /\
+  sok chk_C18 ex18h_typed1 (ex18h_trace ex18h_acts1 ex18h_typed1) = true /\
+  sok chk_once ex18h_typed1 (ex18h_trace ex18h_acts1 ex18h_typed1) = false /\
+  user_events T_WAITED (ex18h_trace ex18h_acts1 ex18h_typed1) = [([0; 0; 1; 1], [97%N]); ([0; 0; 1; 1], [98%N])] /\
+  sok chk_C18 ex18h_typed2 (ex18h_trace ex18h_acts2 ex18h_typed2) = true /\
+  user_events T_PROMPT (ex18h_trace ex18h_acts2 ex18h_typed2) = [([0; 0], []); ([1; 1], []); ([2; 1], []); ([0; 0], []); ([1; 1], [])] /\
+  user_events T_READY (ex18h_trace ex18h_acts2 ex18h_typed2) =
+    [([2; 1], [97%N]); ([0; 0], []); ([1; 0], []); ([1; 1], [98%N]); ([0; 0], [])] /\
+  user_events T_WAITED (ex18h_trace ex18h_acts2 ex18h_typed2) =
+    [([2; 2; 1; 1], [97%N]); ([0; 0; 0; 0], []); ([1; 1; 0; 0], []); ([0; 0; 0; 0], []); ([1; 1; 1; 1], [98%N])] /\
+  sok chk_C18 [Some [97%N]] [EUser T_PROMPT [0; 0] []; EUser T_PROMPT [1; 1] []; EHandler H_RECEIVED 0 0;
+                             EUser T_READY [1; 1] [97%N]; EUser T_READY [0; 0] []; EUser T_WAITED [0; 0; 1; 0] []] = false /\
+  sok chk_C18 [Some [97%N]] [EUser T_PROMPT [0; 0] []; EUser T_WAITED [0; 0; 0; 0] []] = false /\
+  sok chk_C18 [Some [97%N]] [EUser T_PROMPT [0; 0] []; EHandler H_RECEIVED 0 0; EUser T_READY [0; 1] [97%N];
+                             EUser T_WAITED [0; 0; 1; 1] [98%N]] = false.
+Proof. vm_compute. repeat split. Qed.
+
 Print Assumptions C18_input_requests.
 Print Assumptions C18_answered_at_most_once.
+Print Assumptions C18_ready_consumes_its_entry.
+Print Assumptions C18_wait_reports_last_answer.
 Print Assumptions C18_no_second_ready.
 Print Assumptions C18_refused_names_everyone.
 Print Assumptions C18_reader_started_iff_idle.
